@@ -583,6 +583,8 @@ theorem pres_probeFire (w : World) (tid : Nat) : Pres w (probeFire w tid) := by
     · exact pe.trans (pres_probeComplete _ _ _)
     · have ht' : getT (emit w s!"probe {showB t.name}") tid = some t := ht
       exact pe.trans (pres_setT_upd ht' rfl id (fun hk => ⟨hk.1, fun c hc => by cases hc⟩))
+    · have ht' : getT (emit w s!"probe {showB t.name}") tid = some t := ht
+      split <;> exact pe.trans (pres_setT_upd ht' rfl id (fun hk => ⟨hk.1, fun c hc => by cases hc⟩))
 
 theorem pres_stopChecks (w : World) (tid : Nat) : Pres w (stopChecks w tid) := by
   unfold stopChecks
@@ -977,6 +979,11 @@ theorem pres_tgtStep {w w' : World} {t : Tgt} (j : J w) (hm : t ∈ w.tgts) (h :
     · split at h
       · cases h; exact pres_probeComplete _ _ _
       · cases h
+  · split at h
+    · cases h; exact pres_setT_of_mem j hm rfl id (fun hk => ⟨hk.1, fun c hc => by cases hc⟩)
+    · split at h
+      · cases h; exact pres_probeComplete _ _ _
+      · cases h
   · cases h
 
 theorem pres_settleOnce {w w' : World} (j : J w) (h : settleOnce w = some w') : Pres w w' := by
@@ -1144,39 +1151,39 @@ theorem newTargets_spec (w : World) (lbId : Nat) (names : List Bytes) (interval 
   exact newTargets_aux lbId interval hcTimeout rt names (w, []) (fun _ h => by cases h)
 
 /-- the body of `startDeploy` once the service object is known -/
-def mkDeploy (cid : Nat) (svc : Bytes) (slot : Bool) (targets : List Bytes) (dt drt : Nat) (w : World) (oid : Nat) (trt : Nat) : World :=
+def mkDeploy (cid : Nat) (svc : Bytes) (slot : Bool) (targets : List Bytes) (dt drt : Nat) (w : World) (oid : Nat) (trt thct : Nat) : World :=
   let lbId := w.next
   let w1 := { w with next := w.next + 1 }
-  let (w2, tids) := newTargets w1 lbId targets hcInterval hcTimeoutNs trt
+  let (w2, tids) := newTargets w1 lbId targets hcInterval thct trt
   let nl : Lb := { id := lbId, targets := tids }
   let w3 := { w2 with lbs := w2.lbs ++ [nl] }
   let c : Cmd := { id := cid, svc := svc, kind := CKind.deploy slot targets, drt := drt, phase := .waiting oid lbId (w.now + dt) }
   { w3 with cmds := w3.cmds ++ [c] }
 
-theorem startDeploy_eq (w : World) (cid : Nat) (svc host : Bytes) (slot : Bool) (targets : List Bytes) (dt drt rt : Nat) :
-    startDeploy w cid svc host slot targets dt drt rt =
+theorem startDeploy_eq (w : World) (cid : Nat) (svc host : Bytes) (slot : Bool) (targets : List Bytes) (dt drt rt hct : Nat) :
+    startDeploy w cid svc host slot targets dt drt rt hct =
       if slot then
         match installedObj w svc with
         | none => emit w s!"cmd c{cid} res=notFound"
-        | some o => mkDeploy cid svc slot targets dt drt w o.id o.rt
+        | some o => mkDeploy cid svc slot targets dt drt w o.id o.rt o.hct
       else
         match installedObj w svc with
         | some o =>
-          mkDeploy cid svc slot targets dt drt { w with objs := w.objs ++ [{ o with id := w.next, host := host, rt := rt }], next := w.next + 1 } w.next rt
+          mkDeploy cid svc slot targets dt drt { w with objs := w.objs ++ [{ o with id := w.next, host := host, rt := rt, hct := hct }], next := w.next + 1 } w.next rt hct
         | none =>
           mkDeploy cid svc slot targets dt drt
             { w with gates := w.gates ++ [{ id := w.next }],
-                     objs := w.objs ++ [{ id := w.next + 1, name := svc, host := host, gate := w.next, rt := rt }], next := w.next + 2 } (w.next + 1) rt := by
+                     objs := w.objs ++ [{ id := w.next + 1, name := svc, host := host, gate := w.next, rt := rt, hct := hct }], next := w.next + 2 } (w.next + 1) rt hct := by
   unfold startDeploy mkDeploy
   rfl
 
-theorem pres_mkDeploy (cid : Nat) (svc : Bytes) (slot : Bool) (targets : List Bytes) (dt drt : Nat) (w : World) (oid : Nat) (trt : Nat)
-    (hf : Fresh w) : Pres w (mkDeploy cid svc slot targets dt drt w oid trt) := by
+theorem pres_mkDeploy (cid : Nat) (svc : Bytes) (slot : Bool) (targets : List Bytes) (dt drt : Nat) (w : World) (oid : Nat) (trt thct : Nat)
+    (hf : Fresh w) : Pres w (mkDeploy cid svc slot targets dt drt w oid trt thct) := by
   unfold mkDeploy
   simp only
   have p1 : Pres w { w with next := w.next + 1 } := Pres.of_eq rfl rfl rfl rfl rfl (Nat.le_succ _)
-  obtain ⟨q1, q2, q3, q4⟩ := newTargets_spec { w with next := w.next + 1 } w.next targets hcInterval hcTimeoutNs trt
-  cases hnt : newTargets { w with next := w.next + 1 } w.next targets hcInterval hcTimeoutNs trt with
+  obtain ⟨q1, q2, q3, q4⟩ := newTargets_spec { w with next := w.next + 1 } w.next targets hcInterval thct trt
+  cases hnt : newTargets { w with next := w.next + 1 } w.next targets hcInterval thct trt with
   | mk w2 tids =>
     rw [hnt] at q1 q2 q3 q4
     simp only at q1 q2 q3 q4 ⊢
@@ -1221,23 +1228,23 @@ theorem installedObj_mem {w : World} {svc : Bytes} {o : Obj} (h : installedObj w
   | none => rw [hf] at h; cases h
   | some p => rw [hf] at h; exact getO_mem h
 
-theorem J_startDeploy (w : World) (cid : Nat) (svc host : Bytes) (slot : Bool) (targets : List Bytes) (dt drt rt : Nat)
-    (j : J w) : J (startDeploy w cid svc host slot targets dt drt rt) := by
+theorem J_startDeploy (w : World) (cid : Nat) (svc host : Bytes) (slot : Bool) (targets : List Bytes) (dt drt rt hct : Nat)
+    (j : J w) : J (startDeploy w cid svc host slot targets dt drt rt hct) := by
   rw [startDeploy_eq]
   split
   · split
     · exact j.step (pres_emit _ _)
-    · exact j.step (pres_mkDeploy _ _ _ _ _ _ _ _ _ j.fresh)
+    · exact j.step (pres_mkDeploy _ _ _ _ _ _ _ _ _ _ j.fresh)
   · split
     · rename_i o ho
-      have hO : PhiO w { o with id := w.next, host := host, rt := rt } := j.objs o (installedObj_mem ho)
-      have j1 := j.step (pres_appendO w { o with id := w.next, host := host, rt := rt } 1 hO)
-      exact j1.step (pres_mkDeploy _ _ _ _ _ _ _ _ _ j1.fresh)
-    · have hO : PhiO w { id := w.next + 1, name := svc, host := host, gate := w.next, rt := rt } := by
+      have hO : PhiO w { o with id := w.next, host := host, rt := rt, hct := hct } := j.objs o (installedObj_mem ho)
+      have j1 := j.step (pres_appendO w { o with id := w.next, host := host, rt := rt, hct := hct } 1 hO)
+      exact j1.step (pres_mkDeploy _ _ _ _ _ _ _ _ _ _ j1.fresh)
+    · have hO : PhiO w { id := w.next + 1, name := svc, host := host, gate := w.next, rt := rt, hct := hct } := by
         intro lb hlb; simp [refs] at hlb
       have j0 : J { w with gates := w.gates ++ [{ id := w.next }] } := j.step (Pres.of_eq rfl rfl rfl rfl rfl)
-      have j1 := j0.step (pres_appendO _ { id := w.next + 1, name := svc, host := host, gate := w.next, rt := rt } 2 (hO.mono (Ext.of_eq rfl rfl)))
-      exact j1.step (pres_mkDeploy _ _ _ _ _ _ _ _ _ j1.fresh)
+      have j1 := j0.step (pres_appendO _ { id := w.next + 1, name := svc, host := host, gate := w.next, rt := rt, hct := hct } 2 (hO.mono (Ext.of_eq rfl rfl)))
+      exact j1.step (pres_mkDeploy _ _ _ _ _ _ _ _ _ _ j1.fresh)
 
 /-! ### schedule lines -/
 
@@ -1328,7 +1335,7 @@ theorem J_applyOp (w : World) (op : Op) (j : J w) : J (applyOp w op) := by
     unfold setScript; split <;> exact Pres.of_eq rfl rfl rfl rfl rfl
   | arm l => simp only [applyOp]; exact J_settle _ _ (j.step (Pres.of_eq rfl rfl rfl rfl rfl))
   | disarm l => simp only [applyOp]; exact J_settle _ _ (j.step (Pres.of_eq rfl rfl rfl rfl rfl))
-  | deploy c svc host rollout ts dt drt rt => simp only [applyOp]; exact J_settle _ _ (J_startDeploy _ _ _ _ _ _ _ _ _ j)
+  | deploy c svc host rollout ts dt drt rt hct => simp only [applyOp]; exact J_settle _ _ (J_startDeploy _ _ _ _ _ _ _ _ _ _ j)
   | pause c svc drt fa =>
     simp only [applyOp]
     refine J_settle _ _ (J_withInstalled _ _ _ _ j (fun o _ _ => ?_))
